@@ -1,7 +1,7 @@
 """C14 - compilation results do not depend on history or on earlier failures (engine H)."""
 from __future__ import annotations
 
-from hist_common import COMPILE_OPS, FMTS, MULTI_HYBRID, STMT_TWINS, SUB_CALLERS, SUB_CATALOGUE, WARMUP_BIG, WARMUP_ONE, HistEngine
+from hist_common import COMPILE_OPS, FMTS, MACRO_OVERRIDES, MACRO_USERS, MULTI_HYBRID, STMT_TWINS, SUB_CALLERS, SUB_CATALOGUE, WARMUP_BIG, WARMUP_ONE, HistEngine
 from sim import gen_beh, norm
 from sim.core import Chooser, EventLog, Violation, stable_hash
 
@@ -30,7 +30,8 @@ class EngineC14(HistEngine):
         used_names: set[str] = set()
         for _ in range(n):
             k = ch.weighted([("insn", 10), ("stmt", w_stmt), ("fresh", w_fresh), ("fresh2", w_fresh // 2), ("new", w_new if len(insts) < 3 else 0),
-                             ("add_sub", 1), ("parse_err", fail_w // 2), ("load", 1), ("loaded_insn", 2), ("twins", 1)], "opkind")
+                             ("add_sub", 1), ("parse_err", fail_w // 2), ("load", 1), ("loaded_insn", 2), ("twins", 1),
+                             ("add_macro", 1), ("shortcode", 1 if ch.chance(1, 6, "sc?") else 0)], "opkind")
             if k == "new":
                 fmt = ch.choice(FMTS, "newfmt")
                 ops.append({"op": "new_compiler", "fmt": fmt})
@@ -50,6 +51,26 @@ class EngineC14(HistEngine):
                                 "code": ch.choice(callers, "ca"), "fmt": insts[0]})
                 if s["name"] != "vf_bad" and s["name"] not in subs:
                     subs.append(s["name"])
+                continue
+            if k == "add_macro":
+                m = ch.choice(MACRO_OVERRIDES, "macro")
+                ops.append(dict(m, op="add_macro", inst=inst))
+                # users of the macro on this and on the other instances
+                for _ in range(ch.randint(1, 3, "nmusers")):
+                    ops.append({"op": ch.choice(["stmt", "fresh"], "muentry"), "inst": ch.draw(len(insts), "muinst"),
+                                "code": ch.choice(MACRO_USERS[m["name"]], "muser"), "fmt": ch.choice(FMTS, "mufmt")})
+                continue
+            if k == "shortcode":
+                # two rounds of the batch route on one name whose behaviour changes in between
+                n1 = ch.choice(self.names, "sc1")
+                n2 = ch.choice(self.names, "sc2")
+                if len(self.beh[n1]) == 1 and len(self.beh[n2]) == 1 and len(self.beh[n1][0]) + len(self.beh[n2][0]) < 400:
+                    nm = "sc_" + n1
+                    i2 = ch.draw(len(insts), "scinst2")
+                    ops.append({"op": "shortcode", "inst": inst, "behaviors": {nm: self.beh[n1]}})
+                    ops.append({"op": "compile_parsed", "inst": inst, "name": nm, "parts": self.beh[n1]})
+                    ops.append({"op": "shortcode", "inst": i2, "behaviors": {nm: self.beh[n2]}})
+                    ops.append({"op": "compile_parsed", "inst": i2, "name": nm, "parts": self.beh[n2]})
                 continue
             if k == "twins":
                 a, b = ch.choice(STMT_TWINS, "twin")
@@ -133,6 +154,7 @@ class EngineC14(HistEngine):
         ops = workload["ops"]
         insts = [workload["fmt0"]]
         subs: list[str] = []
+        inst_macros: dict[int, list] = {}
         failure_seen = False
         seen_inputs: dict = {}
         compared_ops = 0
@@ -166,11 +188,23 @@ class EngineC14(HistEngine):
                     if r is not None and norm.normalise(o["def"]) != r:
                         viol(step, "sub-def", op["name"], diff=norm.first_difference(norm.normalise(o["def"]), r))
                 continue
+            if kind == "add_macro":
+                if o["status"] == "ok":
+                    lst = inst_macros.setdefault(op.get("inst", 0) % len(insts), [])
+                    if op["name"] not in lst:
+                        lst.append(op["name"])
+                log.add("add_macro", op["name"], o["status"])
+                continue
+            if kind == "shortcode":
+                if o["status"] != "ok":
+                    viol(step, "shortcode-failed", o.get("exc", ""), msg=o.get("msg"))
+                log.add("shortcode", o["status"])
+                continue
             if kind not in COMPILE_OPS:
                 continue
             inst = op.get("inst", 0) % len(insts)
             fmt = op["fmt"] if kind in ("fresh", "fresh2") else insts[inst]
-            name = op["name"] if kind in ("insn", "loaded_insn") else "stmt"
+            name = op["name"] if kind in ("insn", "loaded_insn", "compile_parsed") else "stmt"
             if kind == "loaded_insn":
                 parts = list(self.beh[op["name"]])
                 got_parts = o.get("loaded_parts")
@@ -180,7 +214,7 @@ class EngineC14(HistEngine):
             elif kind == "fresh2":
                 parts = list(op["codes"])
             else:
-                parts = op["parts"] if kind == "insn" else [op["code"]]
+                parts = op["parts"] if kind in ("insn", "compile_parsed") else [op["code"]]
             fault = op.get("fault")
             if fault:
                 out.count("fault_armed")
@@ -193,7 +227,7 @@ class EngineC14(HistEngine):
                 log.add("faulted", kind, fault["at"], fault["when"], fault["exc"], o["status"])
                 nontrivial_marks.add("fault")
                 continue
-            refs = [self.ref(fmt, name, p, tuple(subs)) for p in parts]
+            refs = [self.ref(fmt, name, p, tuple(subs), tuple(sorted(inst_macros.get(inst, ())))) for p in parts]
             exp_exc = next((r["exc"] for r in refs if r["status"] != "ok"), None)
             out.compared += 1
             compared_ops += 1
@@ -243,7 +277,7 @@ class EngineC14(HistEngine):
                                    ["-" + x.replace("HEX_IL_INSN_ATTR_", "") for x in wm - gm])
                         viol(step, "meta", ",".join(d), part=j, name=name, got=sorted(gm), want=sorted(wm))
                         break
-                if kind in ("insn", "loaded_insn"):
+                if kind in ("insn", "loaded_insn", "compile_parsed"):
                     if bool(o["needs_hi"][j]) != bool(r["needs_hi"]) or bool(o["needs_pkt"][j]) != bool(r["needs_pkt"]):
                         viol(step, "needs-flags", "", part=j, name=name)
                         break
